@@ -4,6 +4,7 @@ Each function has a contract in CONTRACTS (same format as /verif/contracts) stro
 tools/conformance.py (1) lets pyvc prove the contract from this source and (2) runs the function in CPython on random
 inputs and evaluates the same contract natively.  A contract that pyvc proves but CPython violates is an unsound encoding.
 """
+from itertools import product, combinations
 
 
 def floordiv_mod(a, b):
@@ -138,6 +139,24 @@ def nested_loops(n, m):
     return c
 
 
+def prod_count(n, m):
+    c = 0
+    last = -1
+    for (i, j) in product(range(n), range(1, m + 1)):
+        c += 1
+        last = i * 1000 + j
+    return (c, last)
+
+
+def comb_gaps(n):
+    c = 0
+    g = 0
+    for (a, b) in combinations(range(1, n + 1), 2):
+        c += 1
+        g += b - a - 1
+    return c
+
+
 C = 'conformance/cases.py'
 CONTRACTS = {
     # exceptions of primitive operations are HAZARD obligations in pyvc: the precondition is the exact no-exception condition
@@ -191,4 +210,16 @@ CONTRACTS = {
                           'loops': {0: {'counter': '_io', 'inv': ['(m >= 0 and c == _io * m) or (m < 0 and c == 0)']},
                                     1: {'ghost_at_entry_vals': {'C0': 'c'}, 'inv': ['c == C0 + _it']}},
                           'ensures': ['(n >= 0 and m >= 0 and result == n * m) or ((n < 0 or m < 0) and result == 0)']},
+    # product / combinations loops are verified as the nested range loops they are equivalent to
+    (C, 'prod_count'): {'params': {'n': 'int', 'm': 'int'}, 'raises': {}, 'returns': 'tuple:int,int',
+                        'loops': {0: {'nest': [{'counter': '_io', 'inv': ['(m >= 0 and c == _io * m) or (m < 0 and c == 0)',
+                                                                          '(_io >= 1 and m >= 1 and last == (_io - 1) * 1000 + m) or ((_io == 0 or m < 1) and last == -1)']},
+                                               {'ghost_at_entry_vals': {'C0': 'c'},
+                                                'inv': ['c == C0 + _it', '(_it >= 1 and last == i * 1000 + _it) or (_it == 0 and ((_io >= 1 and m >= 1 and last == (_io - 1) * 1000 + m) or ((_io == 0 or m < 1) and last == -1)))']}]}},
+                        'ensures': ['(n >= 0 and m >= 0 and result[0] == n * m) or ((n < 0 or m < 0) and result[0] == 0)',
+                                    '(n >= 1 and m >= 1 and result[1] == (n - 1) * 1000 + m) or ((n < 1 or m < 1) and result[1] == -1)']},
+    (C, 'comb_gaps'): {'params': {'n': 'int'}, 'raises': {}, 'returns': 'int',
+                       'loops': {0: {'nest': [{'counter': '_io', 'inv': ['2 * c == _io * (2 * n - _io - 1) or (n < 1 and c == 0)', 'c >= 0']},
+                                              {'ghost_at_entry_vals': {'C0': 'c'}, 'inv': ['c == C0 + _it']}]}},
+                       'ensures': ['(n >= 1 and 2 * result == n * (n - 1)) or (n < 1 and result == 0)']},
 }
